@@ -6,7 +6,7 @@
        is ground reproduces the screen (C01 at byte level), given that the emitted tokens satisfy
        ParseSer.token_ok (proved separately by the token work). *)
 Require Import Tac ListN Utf8 Width Attrs Cell Row Grid Screen Vte Perform Parser Term Emit.
-Require Import RowInv GridInv TextInv ScreenInv ParseSer CellWf WfInv WrapInv WrapInvScreen SgrSpec EmitSafe ObsSpec.
+Require Import RowInv GridInv TextInv ScreenInv ParseSer PendTok CellWf WfInv WrapInv WrapInvScreen SgrSpec EmitSafe ObsSpec.
 Require Import AttrsInv EmitTokens CellInv Recv RowPaint Redraw Cursor C01Main C15Main CapInv Idem LastRow C01Examples.
 Open Scope N_scope.
 
@@ -53,17 +53,18 @@ Theorem play_any_rz rz R ts R' : play false R ts = Ok (R', []) -> play rz R ts =
 Proof. destruct rz; [apply perform_all_rz|auto]. Qed.
 
 (* processing the serialised tokens *)
-Theorem process_tokens p ts R' : ground (vt p) -> forallb token_ok ts = true ->
+Theorem process_tokens p ts R' : pend p = [] -> ground (vt p) -> forallb token_ok ts = true ->
   play false (scr p) ts = Ok (R', []) ->
   exists q, process p (ser_all ts) = Ok q /\ scr q = R' /\ log q = log p /\ ground (vt q) /\ resizing q = resizing p.
 Proof.
-  intros Hg Hok Hp. destruct (parse_ser ts (vt p) Hg Hok) as (v & Ea & Gv).
-  unfold process. rewrite Ea. apply (play_any_rz (resizing p)) in Hp. unfold play in Hp. rewrite Hp. cbn [bind].
+  intros Hpd Hg Hok Hp. destruct (parse_ser ts (vt p) Hg Hok) as (v & Ea & Gv).
+  rewrite (process_ser_all p ts Hpd Hok). rewrite Ea. apply (play_any_rz (resizing p)) in Hp. unfold play in Hp. rewrite Hp. cbn [bind].
   eexists; split; [reflexivity|]. cbn. rewrite app_nil_r. auto.
 Qed.
 
 (* C01, byte level *)
 Theorem C01_fresh_bytes S p vr ts :
+  pend p = [] ->
   source_ok S vr -> canvas (scr p) -> ground (vt p) ->
   grows (g (scr p)) = grows (cur S) -> gcols (g (scr p)) = gcols (cur S) ->
   mmode (scr p) = MNone -> menc (scr p) = EDefault ->
@@ -71,22 +72,23 @@ Theorem C01_fresh_bytes S p vr ts :
   exists q, process p (ser_all ts) = Ok q /\ log q = log p /\ ground (vt q) /\
             canvas (scr q) /\ same_obs_minus S (scr q) vr /\ same_modes S (scr q).
 Proof.
-  intros Hs CR Hg Er Ec Hm He Ets Hok.
+  intros Hpd Hs CR Hg Er Ec Hm He Ets Hok.
   destruct (C01_fresh S (scr p) vr ts Hs CR Er Ec Hm He Ets) as (R' & P & C' & So & Sm).
-  destruct (process_tokens p ts R' Hg Hok P) as (q & Eq & <- & El & Gq & _).
+  destruct (process_tokens p ts R' Hpd Hg Hok P) as (q & Eq & <- & El & Gq & _).
   exists q. auto 10.
 Qed.
 
 Theorem C01_dirty_bytes S p vr ts :
+  pend p = [] ->
   source_ok S vr -> canvas (scr p) -> ground (vt p) ->
   grows (g (scr p)) = grows (cur S) -> gcols (g (scr p)) = gcols (cur S) ->
   contents_formatted_t S = Ok ts -> forallb token_ok ts = true ->
   exists q, process p (ser_all ts) = Ok q /\ log q = log p /\ ground (vt q) /\
             canvas (scr q) /\ same_obs_minus S (scr q) vr.
 Proof.
-  intros Hs CR Hg Er Ec Ets Hok.
+  intros Hpd Hs CR Hg Er Ec Ets Hok.
   destruct (C01_dirty S (scr p) vr ts Hs CR Er Ec Ets) as (R' & P & C' & So & _).
-  destruct (process_tokens p ts R' Hg Hok P) as (q & Eq & <- & El & Gq & _).
+  destruct (process_tokens p ts R' Hpd Hg Hok P) as (q & Eq & <- & El & Gq & _).
   exists q. auto 10.
 Qed.
 
@@ -95,6 +97,8 @@ Qed.
 (* ------------------------------------------------------------------ *)
 Lemma fresh_ground rows cols cap rz r : parser_new rows cols cap rz = Ok r -> ground (vt r) /\ log r = [].
 Proof. unfold parser_new. intros E. bind_inv E. inv E. cbn. split; [apply ground_init|reflexivity]. Qed.
+Lemma fresh_pend rows cols cap rz r : parser_new rows cols cap rz = Ok r -> pend r = [].
+Proof. unfold parser_new. intros E. bind_inv E. inv E. reflexivity. Qed.
 
 (* Parser::new(R, C, _); any history -> S (scrollback offset 0).  b := state_formatted(S) as BYTES.
    Parser::new(rows(S), cols(S), _).process(b): no panic, no callback event, vte state ground again,
@@ -115,6 +119,6 @@ Proof.
   destruct (reachable_inv _ Hreach) as (I1 & I2 & I3).
   pose proof (state_formatted_tok (scr q) ts I1 I2 I3 Ets) as Tok.
   destruct (fresh_ground _ _ _ _ _ Er) as [Gr Lr].
-  destruct (process_tokens r ts R' Gr Tok P) as (r' & Ep & <- & El & Gq & _).
+  destruct (process_tokens r ts R' (fresh_pend _ _ _ _ _ Er) Gr Tok P) as (r' & Ep & <- & El & Gq & _).
   exists r'. rewrite El, Lr. auto 10.
 Qed.
